@@ -237,6 +237,15 @@ def run_model(trace_path, out_path, raw=False, socket=False, ni=None):
     return rc == 0, out
 
 
+def load_stats(path):
+    """the generator's statistics; a run that a watchdog ended (a request that never came back)
+    leaves traces and observations but no statistics"""
+    try:
+        return json.load(open(path))
+    except (OSError, ValueError):
+        return {}
+
+
 def first_diff(a, b):
     for i in range(max(len(a), len(b))):
         x = a[i] if i < len(a) else "<end>"
@@ -662,7 +671,7 @@ def run_conc_suites(prop, cfg, tier, seed, work, report):
         report["cases"] += ncs
         report["conc_cases"] = report.get("conc_cases", 0) + ncs
         try:
-            stj = json.load(open(st))
+            stj = load_stats(st)
             report["events"] += stj.get("conc_steps", 0)
             report["distribution"]["conc_steps"] = report["distribution"].get("conc_steps", 0) + stj.get("conc_steps", 0)
         except Exception:
@@ -728,7 +737,7 @@ def run_conc_suites(prop, cfg, tier, seed, work, report):
                 report["cases"] += ncs
                 txt = open(tout).read()
                 report["events"] += sum(1 for l in txt.splitlines() if l.split(" ")[0] in ("CONN", "END", "PROBE"))
-                for k, v in json.load(open(st)).items():
+                for k, v in load_stats(st).items():
                     report["distribution"][k] = report["distribution"].get(k, 0) + v
                 for x in d:
                     diffs.append((tag,) + x)
@@ -757,7 +766,7 @@ def run_conc_suites(prop, cfg, tier, seed, work, report):
                 report["cases"] += ncs
                 txt = open(tout).read()
                 report["events"] += sum(1 for l in txt.splitlines() if l.split(" ")[0] in ("MCONN", "MEND", "MPROBE"))
-                for k, v in json.load(open(st)).items():
+                for k, v in load_stats(st).items():
                     report["distribution"][k] = report["distribution"].get(k, 0) + v
                 for x in d:
                     diffs.append((tag,) + x)
@@ -804,7 +813,7 @@ def run_conc_suites(prop, cfg, tier, seed, work, report):
                 d, ncs = compare(tout, iobs, mobs)
                 report["cases"] += ncs
                 report["conc_cases"] = report.get("conc_cases", 0) + ncs
-                stj = json.load(open(st))
+                stj = load_stats(st)
                 report["events"] += stj.get("conc_steps", 0)
                 report["distribution"]["policy_conc_steps"] = report["distribution"].get("policy_conc_steps", 0) + stj.get("conc_steps", 0)
                 txt = open(tout).read()
@@ -832,7 +841,7 @@ def run_conc_suites(prop, cfg, tier, seed, work, report):
         if rc != 0:
             report["errors"].append("harness failed on suite sweep: %s" % out[-500:])
         else:
-            stj = json.load(open(st))
+            stj = load_stats(st)
             report["cases"] += stj.get("sweep_cases", 0)
             report["events"] += stj.get("sweep_steps", 0)
             for k, v in stj.items():
@@ -925,7 +934,7 @@ def run_seq_suites(prop, cfg, tier, seed, work, report):
             if any(l.startswith("R ") and l[14:18] == "0000" for l in lines) and any(l.startswith("M ") for l in lines):
                 distinct.add(hashlib.sha1("\n".join(lines[1:]).encode()).hexdigest())
         if st and os.path.exists(st):
-            for k, v in json.load(open(st)).items():
+            for k, v in load_stats(st).items():
                 report["distribution"][k] = report["distribution"].get(k, 0) + v
                 mp = cfg.get("monitor_prefix")
                 if mp and k.startswith(mp) and v > 0:
